@@ -383,6 +383,10 @@ func (c *c14) constructs() {
 		if fn.Blocks == nil {
 			continue
 		}
+		// the property is about the server: the generated client (client.go) is C09/C10's subject
+		if f := c.p.Pkg.Fset.File(fn.Pos()); f != nil && filepath.Base(f.Name()) == "client.go" {
+			continue
+		}
 		fkey := c.p.Name + ":" + shortFuncName(fn)
 		for _, b := range fn.Blocks {
 			for _, ins := range b.Instrs {
